@@ -69,6 +69,10 @@ def inventory(facts):
         def lv(n):
             if n.get("k") in ("For", "While", "Do", "RangeFor"):
                 walk(n.get("b"), lambda x: in_loop.add(id(x)) if x.get("k") == "Expr" else None)
+                for part in ("init", "inc"):      # `for (i = 0; ..)`: the loop counter is not restored state
+                    if isinstance(n.get(part), dict):
+                        in_loop.add(id(n[part]))
+                        walk(n[part], lambda x: in_loop.add(id(x)) if x.get("k") == "Expr" else None)
         walk(fn["body"], lv)
 
         def v(n):
